@@ -47,9 +47,11 @@ def build_binary(name, src, flags=(), cxx='g++', opt='-O1', extra_deps=()):
     if os.path.exists(out):
         return out
     os.makedirs(os.path.dirname(out), exist_ok=True)
+    # other versions of this binary may be in use by a concurrent run (another header under VERIF_REPO): prune by age only
     for old in glob.glob(os.path.join(BUILD, 'bin', name + '-*')):
         try:
-            os.remove(old)
+            if time.time() - os.path.getmtime(old) > 3 * 3600:
+                os.remove(old)
         except OSError:
             pass
     cmd = [cxx, '-std=c++17', opt, '-DCTPG_VERIF', '-I' + os.path.join(REPO, 'include'), '-I' + HARNESS] + list(flags) + [srcp, '-o', out + '.tmp', '-pthread']
@@ -117,7 +119,7 @@ def run_tlc(module, cfg, env, name, workers=8, timeout=600, simulate=None, heap=
 def _run_tlc(module, cfg, env, name, workers=8, timeout=600, simulate=None, heap='8g', coverage=False):
     """Runs TLC on spec/<module>.tla with spec/<cfg>; returns TlcResult.  Raises Infra on tool failures."""
     ensure_dirs()
-    meta = os.path.join(BUILD, 'tlc', name)
+    meta = os.path.join(BUILD, 'tlc', str(os.getpid()), name)
     shutil.rmtree(meta, ignore_errors=True)
     os.makedirs(meta, exist_ok=True)
     e = dict(os.environ)
@@ -244,8 +246,23 @@ def load_known():
     return json.load(open(p))
 
 
+_registered = False
+
+
+def _cleanup():
+    shutil.rmtree(os.path.join(BUILD, 'work', str(os.getpid())), ignore_errors=True)
+    shutil.rmtree(os.path.join(BUILD, 'tlc', str(os.getpid())), ignore_errors=True)
+
+
 def scratch(name):
-    d = os.path.join(BUILD, 'work', name)
+    """per-process scratch directory (concurrent checks - self-test, seeds, vp runs - must not share one); removed at exit
+    unless VERIF_KEEP is set"""
+    global _registered
+    if not _registered and not os.environ.get('VERIF_KEEP'):
+        import atexit
+        atexit.register(_cleanup)
+        _registered = True
+    d = os.path.join(BUILD, 'work', str(os.getpid()), name)
     shutil.rmtree(d, ignore_errors=True)
     os.makedirs(d, exist_ok=True)
     return d
